@@ -163,6 +163,17 @@ async fn run_case(behs: Vec<Beh>, ops: Vec<String>) -> String {
                     }
                 }
             }
+            // `c:<k>`: another task awaits a CLONE of the ticket that waiter k holds (its own waker, polled once right now)
+            "c" => {
+                let w = nticket; nticket += 1;
+                let k: usize = parts[1].parse().unwrap();
+                let Some(t) = waiters.iter().find(|(r, _)| r.w == k).map(|(_, f)| (**f).clone()) else { continue };
+                let rec = Arc::new(WakeRec { w, sh: sh.clone(), done: Default::default() });
+                let waker = std::task::Waker::from(rec.clone());
+                let mut fut = Box::pin(t);
+                if fut.as_mut().poll(&mut std::task::Context::from_waker(&waker)).is_ready() { rec.resolve(); }
+                waiters.push((rec, fut));
+            }
             "s" | "n" => {
                 let w = nticket; nticket += 1;
                 let Some(j) = job.as_ref() else { continue };
